@@ -418,6 +418,8 @@ def check(chk):
         chk.ob("PAIR-10", "a software-timed pulse arms its switch-off delay on the same path", ok, f.where(c),
                detail="hw_driver.enable without a delay calling self.disable: the coil stays on", construct=f.ident,
                text="timed off armed")
+        chk.ob("PAIR-10", "the switch-off is armed before the coil is switched on (nothing that happens in between can leave it on)",
+               any(cfg.dominates(o.id, n.id) for o, _ in offs), f.where(c), construct=f.ident, text="timed off armed after switching on")
     for o, c in offs:
         ms = kwarg(c, "ms") or (c.args[0] if c.args else None)
         ok = ms is not None and src(ms) == "pulse_ms"
@@ -579,6 +581,7 @@ def battery():
         M("twin: keyword construction", D, "self.hw_driver.timed_enable(PulseSettings(pulse_power, pulse_duration),\n                                    HoldSettings(hold_power, hold_duration))", "self.hw_driver.timed_enable(PulseSettings(power=pulse_power, duration=pulse_duration),\n                                    HoldSettings(power=hold_power, duration=hold_duration))", None),
         M("twin: delay before enable already", D, "self.info_log(\"Enabling Driver for %sms (%s pulse_power)\", pulse_ms, pulse_power)", "self.debug_log(\"Enabling Driver for %sms (%s pulse_power)\", pulse_ms, pulse_power)", None),
         M("twin: guarded add for watchdog", D, "            self.delay.add_if_doesnt_exist(self.config['max_hold_duration'] * 1000, self._enable_limit_reached,\n                                           \"enable_limit_reached\")", "            if not self.delay.check(\"enable_limit_reached\"):\n                self.delay.add(self.config['max_hold_duration'] * 1000, self._enable_limit_reached,\n                               \"enable_limit_reached\")", None),
+        M("software-timed pulse switches the coil on before arming the switch-off", DRV, "            self.delay.reset(name='timed_disable',\n                             ms=pulse_ms,\n                             callback=self.disable)\n            self.hw_driver.enable(PulseSettings(power=pulse_power, duration=0),\n                                  HoldSettings(power=pulse_power))", "            self.hw_driver.enable(PulseSettings(power=pulse_power, duration=0),\n                                  HoldSettings(power=pulse_power))\n            self.delay.reset(name='timed_disable',\n                             ms=pulse_ms,\n                             callback=self.disable)", "PAIR-10"),
     ]
 
 
